@@ -281,7 +281,7 @@ M("c13-minus-right-assoc", ["C13"], PA,
   [("C13", "C13-R3|C13-R4", "associativity|binary-loop")])
 M("c13-target-check-dropped", ["C13", "C04"], PA,
   "                # Postfix increment/decrement\n                self._check_reference_target(expr)\n", "                # Postfix increment/decrement\n",
-  [("C13", "C13-R1", "_parse_postfix_expression")])
+  [("C13", "C13-R1", "_continue_postfix_expression")])
 M("c13-comment-eof-accepted", ["C13"], LX,
   "                else:\n                    raise JSSyntaxError(\"Unterminated comment\", self.line, self.column)\n", "",
   [("C13", "C13-R2", "_skip_whitespace")])
@@ -501,7 +501,7 @@ M("c02-arrow-forgets-loop-stack", ["C02", "C05", "C07"], CO,
 
 # ------------------------------------------------------------------ seeded changes (independent authors)
 S("seed-C01-a", ["C01"], "seeded/C01-a/patch.diff", [("C01", "C01-R6", "_call_callback")])
-S("seed-C01-b", ["C01"], "seeded/C01-b/patch.diff", [("C01", "C01-R(2|4|7)", ".")], silent=["C15"], note="C15 must stay silent: the helper only compares the clock")
+S("seed-C01-b", ["C01"], "seeded/C01-b/patch.diff", [("C01", "C01-R9", "start_time")], silent=["C15"], note="C15 must stay silent: the helper only compares the clock")
 S("seed-C02-a", ["C02"], "seeded/C02-a/patch.diff", [("C02", "C02-R1$", "MemoryLimitError")])
 S("seed-C02-b", ["C02"], "seeded/C02-b/patch.diff", [("C02", "C02-R10", "_has_pending_state")])
 S("seed-C03-a", ["C03"], "seeded/C03-a/patch.diff", [("C03", "C03-R3b", "this_val")])
@@ -592,3 +592,27 @@ M("c09-lookbehind-attempts-share-captures", ["C09"], RV,
   "                string, start_pc, start_pos, [c.copy() for c in captures], end_pos\n",
   "                string, start_pc, start_pos, captures, end_pos\n",
   [("C09", "C09-R4", "_run_lookbehind:snapshots")])
+
+# ------------------------------------------------------------------ regex deadlines belong to the running evaluation (fix 35564e0)
+M("c12-test-does-not-adopt", ["C12"], VM,
+  "            string = to_string(args[0]) if args else \"\"\n            self._adopt_regex(re)\n            try:\n                return re.test(string)",
+  "            string = to_string(args[0]) if args else \"\"\n            try:\n                return re.test(string)",
+  [("C12", "C12-R5", "test_fn|JSRegExp deadline")])
+M("c12-replace-uses-stored-callback", ["C12"], VM,
+  "                    regex_internal = self._adopt_regex(pattern)\n", "                    regex_internal = pattern._internal\n",
+  [("C12", "C12-R5", "unadopted|JSRegExp deadline")])
+M("c01-deadline-factory-ignores-limit", ["C01"], VM,
+  "        def check_timeout() -> bool:\n            \"\"\"Return True if time limit exceeded (to abort regex).\"\"\"\n            return time.monotonic() - self.start_time > self.time_limit\n\n        return check_timeout\n",
+  "        def check_timeout() -> bool:\n            \"\"\"Return True if time limit exceeded (to abort regex).\"\"\"\n            return False\n\n        return check_timeout\n",
+  [("C01", "C01-R4", ".")])
+M("c01-adopt-installs-nothing", ["C01", "C12"], VM,
+  "        regex._internal.set_poll_callback(self._deadline_callback())\n", "        regex._internal.set_poll_callback(None)\n",
+  [("C12", "C12-R5", "JSRegExp deadline"), ("C01", "C01-R4", "adopt")])
+T("t-adopt-inline-assignment", ["C01", "C12"], VM,
+  "        regex._internal.set_poll_callback(self._deadline_callback())\n", "        regex._internal._poll_callback = self._deadline_callback()\n")
+
+# the cached-deadline refactoring of seed C01-b done RIGHT: nested interpreters refresh the cached deadline too
+TWINS.append(dict(id="t-cached-deadline-kept-coherent", props=["C01", "C12", "C15"], patch="seeded/C01-b/patch.diff", note="seed C01-b plus the missing refresh of the cached deadline wherever start_time is inherited",
+                  edits=[(CX, "                    vm.start_time = self._current_vm.start_time\n", "                    vm.start_time = self._current_vm.start_time\n                    vm.deadline = self._current_vm.deadline\n", 1),
+                         (CX, "                    vm.start_time = ctx._current_vm.start_time\n", "                    vm.start_time = ctx._current_vm.start_time\n                    vm.deadline = ctx._current_vm.deadline\n", 1),
+                         (CX, "            vm.start_time = self._current_vm.start_time\n        else:\n            vm.start_time = time.monotonic()\n", "            vm.start_time = self._current_vm.start_time\n            vm.deadline = self._current_vm.deadline\n        else:\n            vm._start_clock()\n", 1)]))
